@@ -309,8 +309,19 @@ func hasDriftInTree(p *rc.Pos, d int) bool {
 	if driftPossible(p) {
 		return true
 	}
+	// the quiescence search goes deeper than any fixed horizon: every pawn that can reach its promotion
+	// square within the search (5th rank or beyond) may add a queen (4 points) to the stored sum
+	advanced := 0
+	for sq, pc := range p.B {
+		if (pc == 'P' && rc.RankOf(sq) >= 4) || (pc == 'p' && rc.RankOf(sq) <= 3) {
+			advanced++
+		}
+	}
+	if rawPhase(p)+4*advanced > 24 {
+		return true
+	}
 	if rawPhase(p) < 20 {
-		return false // captures only lower the sum; promotions add at most 4 each: stay conservative below
+		return false // captures only lower the sum and the promotions are accounted for above
 	}
 	if d == 0 {
 		return false
